@@ -217,6 +217,9 @@ pub fn install_panic_hook() {
             .location()
             .map(|l| format!("{}:{}", l.file(), l.line()))
             .unwrap_or_default();
+        if std::env::var_os("VERIF_LOUD").is_some() {
+            eprintln!("panic: {msg} @ {loc}");
+        }
         if QUIET.with(|q| q.get()) {
             // keep the first panic of a chain (tokio re-panics "a spawned task panicked ..." afterwards)
             LAST_PANIC.with(|p| {
@@ -257,6 +260,72 @@ fn run_caught<P: Property>(sc: &P::Scenario, keep: bool) -> Report {
             ..Default::default()
         },
     }
+}
+
+// ------------------------------------------------------------------------------------------------
+// the beacon: where every worker is, on disk, for the supervising process (see `supervise`)
+
+pub const BEACON_SLOTS: usize = 64;
+const BEACON_NONE: u64 = u64::MAX;
+
+fn beacon_file() -> &'static Option<std::fs::File> {
+    static B: std::sync::OnceLock<Option<std::fs::File>> = std::sync::OnceLock::new();
+    B.get_or_init(|| {
+        let p = std::env::var_os("VCHECK_BEACON")?;
+        std::fs::OpenOptions::new().write(true).open(p).ok()
+    })
+}
+
+/// Note, before a scenario is executed, which one this worker is about to execute (`variant`
+/// `u64::MAX - 1`: generating it). A process that dies leaves this behind.
+fn beacon_mark(slot: usize, idx: u64, variant: u64) {
+    use std::os::unix::fs::FileExt;
+    if let Some(f) = beacon_file() {
+        let mut b = [0u8; 16];
+        b[..8].copy_from_slice(&idx.to_le_bytes());
+        b[8..].copy_from_slice(&variant.to_le_bytes());
+        let _ = f.write_at(&b, (slot.min(BEACON_SLOTS - 1) * 16) as u64);
+    }
+}
+
+pub const VARIANT_GENERATING: u64 = u64::MAX - 1;
+
+/// `vcheck probe <ID> <seed> <idx> <variant> <tier>`: execute that one scenario and nothing else (exit 0
+/// whatever it finds); `vcheck scenario-at ...`: print it as JSON. Both are run as child processes by the
+/// supervisor after the checking process died.
+pub fn probe<P: Property>(seed: u64, idx: u64, variant: u64, tier: Tier, print: bool) -> i32 {
+    let mut rng = Rng::new(scenario_seed(P::ID, seed, idx));
+    let base = P::generate(&mut rng, idx, tier);
+    if variant == VARIANT_GENERATING {
+        if print {
+            println!("{}", serde_json::to_string(&base).unwrap());
+        } else {
+            let _ = P::variants(&base, tier);
+        }
+        return 0;
+    }
+    let vars = P::variants(&base, tier);
+    let Some(sc) = vars.get(variant as usize) else { return 2 };
+    if print {
+        println!("{}", serde_json::to_string(sc).unwrap());
+    } else {
+        let _ = run_caught::<P>(sc, false);
+    }
+    0
+}
+
+/// Candidates left in a beacon file: (idx, variant) per worker slot.
+pub fn beacon_read(path: &Path) -> Vec<(u64, u64)> {
+    let Ok(b) = std::fs::read(path) else { return vec![] };
+    let mut out = Vec::new();
+    for c in b.chunks_exact(16) {
+        let idx = u64::from_le_bytes(c[..8].try_into().unwrap());
+        let var = u64::from_le_bytes(c[8..].try_into().unwrap());
+        if idx != BEACON_NONE && !out.contains(&(idx, var)) {
+            out.push((idx, var));
+        }
+    }
+    out
 }
 
 // ------------------------------------------------------------------------------------------------
@@ -569,8 +638,9 @@ pub fn check<P: Property>(opt: &Options) -> i32 {
     let known_ref = &known;
 
     std::thread::scope(|s| {
-        for _ in 0..opt.threads.max(1) {
-            s.spawn(|| {
+        for w in 0..opt.threads.max(1) {
+            let (next, stop, found, harness_errors, merged, samples) = (&next, &stop, &found, &harness_errors, &merged, &samples);
+            s.spawn(move || {
                 let mut st = Stats::default();
                 loop {
                     if stop.load(Ordering::Relaxed) {
@@ -580,6 +650,7 @@ pub fn check<P: Property>(opt: &Options) -> i32 {
                     if idx >= total {
                         break;
                     }
+                    beacon_mark(w, idx, VARIANT_GENERATING);
                     let mut rng = Rng::new(scenario_seed(id, seed, idx));
                     let base = match catch(|| P::generate(&mut rng, idx, tier)) {
                         Ok(b) => b,
@@ -600,6 +671,7 @@ pub fn check<P: Property>(opt: &Options) -> i32 {
                     };
                     for (vi, sc) in vars.iter().enumerate() {
                         let want_sample = idx < 3 && vi == 0;
+                        beacon_mark(w, idx, vi as u64);
                         let r = run_caught::<P>(sc, want_sample);
                         st.absorb(&r);
                         if want_sample {
